@@ -310,3 +310,13 @@ func (server *SugarDB) VerifRaftSnapshot(msec int64) ([]byte, error) {
 	return server.raft.VerifSnapshot(msec)
 }
 func (server *SugarDB) VerifRaftRestore(b []byte) error { return server.raft.VerifRestore(b) }
+
+// VerifRaftSnapshotBegin / VerifRaftSnapshotPersist split the snapshot into the two steps raft performs at
+// different moments; VerifRaftApply replays one log entry on this node's state machine.
+func (server *SugarDB) VerifRaftSnapshotBegin() (int, error) { return server.raft.VerifSnapshotBegin() }
+func (server *SugarDB) VerifRaftSnapshotPersist(id int, msec int64) ([]byte, error) {
+	return server.raft.VerifSnapshotPersist(id, msec)
+}
+func (server *SugarDB) VerifRaftApply(index uint64, data []byte) interface{} {
+	return server.raft.VerifApply(index, data)
+}
